@@ -168,6 +168,25 @@ func (h *wHandler) PrepareTxnFiles(ops []*operation.QueuedOperation) (*protocol.
 	return info, err
 }
 
+// wClient is the protocol client of the writer; a failed look-up of the batch's protocol version fails the batch like a
+// failed PrepareTxnFiles does (the batch goes back to the head of the queue): recorded as an unsuccessful prepare.
+type wClient struct {
+	inner  *world.Client
+	rec    *wRecorder
+	gets   int
+	failAt map[int]bool
+}
+
+func (c *wClient) Current() (protocol.Version, error) { return c.inner.Current() }
+func (c *wClient) Get(v uint64) (protocol.Version, error) {
+	c.gets++
+	if c.failAt[c.gets] {
+		c.rec.add(wEvent{Kind: "prepare", OK: false})
+		return nil, errors.New("injected protocol version look-up failure")
+	}
+	return c.inner.Get(v)
+}
+
 type anchorEntry struct {
 	Version uint64
 	Refs    []string // "suffix|type", sorted
@@ -301,6 +320,7 @@ type wTick struct {
 	pre     []wAdd         // adds between ticks (before this tick)
 	casFail []int          // CAS write numbers (within the tick) that fail
 	ancFail []int          // anchor write numbers (within the tick) that fail
+	getFail []int          // protocol-version look-ups (within the tick) that fail
 }
 
 type wSchedule struct {
@@ -323,7 +343,7 @@ func (s *wSchedule) describe(bank []wOp) interface{} {
 		for k, v := range t.inject {
 			inj[fmt.Sprint(k)] = adds(v)
 		}
-		ts = append(ts, map[string]interface{}{"force": t.force, "adds_before": adds(t.pre), "adds_before_queue_call": inj, "cas_fail": t.casFail, "anchor_fail": t.ancFail})
+		ts = append(ts, map[string]interface{}{"force": t.force, "adds_before": adds(t.pre), "adds_before_queue_call": inj, "cas_fail": t.casFail, "anchor_fail": t.ancFail, "version_lookup_fail": t.getFail})
 	}
 	return map[string]interface{}{"max_operation_count": s.max, "ticks": ts}
 }
@@ -382,6 +402,9 @@ func genSchedule(rng *rand.Rand, bank []wOp, nextID *int64, withZero bool, expir
 		if rng.Intn(5) == 0 {
 			t.ancFail = append(t.ancFail, 1+rng.Intn(2))
 		}
+		if rng.Intn(6) == 0 {
+			t.getFail = append(t.getFail, 1+rng.Intn(2))
+		}
 		s.ticks = append(s.ticks, t)
 	}
 	// final forced ticks without faults to let things drain (not necessarily to empty)
@@ -420,7 +443,8 @@ func runSchedule(s *wSchedule, bank []wOp, ids map[int64]wAdd) (res wResult) {
 		anc.providers = append(anc.providers, v.Provider)
 		cl.Versions = append(cl.Versions, v)
 	}
-	w, err := batch.New("did:sidetree", &wContext{pc: cl, a: anc, q: q})
+	wcl := &wClient{inner: cl, rec: rec, failAt: map[int]bool{}}
+	w, err := batch.New("did:sidetree", &wContext{pc: wcl, a: anc, q: q})
 	world.Must(err)
 	doAdd := func(a wAdd) {
 		ids[a.id] = a
@@ -451,6 +475,10 @@ func runSchedule(s *wSchedule, bank []wOp, ids map[int64]wAdd) (res wResult) {
 		anc.failAt = map[int]bool{}
 		for _, k := range t.ancFail {
 			anc.failAt[anc.calls+k] = true
+		}
+		wcl.failAt = map[int]bool{}
+		for _, k := range t.getFail {
+			wcl.failAt[wcl.gets+k] = true
 		}
 		rec.add(wEvent{Kind: "tick", OK: t.force})
 		res.Returns = append(res.Returns, w.VerifStep(t.force))
